@@ -109,7 +109,8 @@ def finish(rep: Report, level="other", explanation="", assumptions=(), trusted=(
     for k in active:
         if k.get("id") not in printed:
             print(f"NOTE: known finding {k.get('id','')} ({k['rule']}) did not fire on this tree")
-    ev_dir = os.path.join(VERIF, "evidence")
+    ev_dir = os.path.join(VERIF, "evidence") if not os.environ.get("SA_NO_EVIDENCE") else \
+        os.path.join(os.environ.get("TMPDIR", "/dev/shm"), f"sa_evidence_{os.getpid()}")
     os.makedirs(ev_dir, exist_ok=True)
     replay = os.path.join(ev_dir, f"{rep.pid}.violations.json")
     if new:
